@@ -109,7 +109,7 @@ func checkPersistCallbackContract(r *Run, p *packages.Package) {
 				var write *ast.CallExpr
 				ast.Inspect(fl.Body, func(y ast.Node) bool {
 					if call, ok := y.(*ast.CallExpr); ok {
-						if callee := calleeOf(info, call); callee != nil && callee.Name() == "writeDumpCheckpoint" {
+						if callee := calleeOf(info, call); callee != nil && callee.Name() == roleName("writeDumpCheckpoint") {
 							write = call
 						}
 					}
